@@ -65,7 +65,7 @@ impl Family for OverlongClose {
 pub fn build(quick: bool) -> Check {
     let alpha = alphabet();
     let mut families: Vec<Box<dyn Family>> = Vec::new();
-    for d in 1..=(if quick { 5 } else { 7 }) {
+    for d in 1..=(if quick { 6 } else { 7 }) {
         families.push(Box::new(Tree { label: "lifecycle".into(), prefix: vec![], alpha: alpha.clone(), depth: d }));
     }
     families.push(Box::new(Bfs {
@@ -84,12 +84,12 @@ pub fn build(quick: bool) -> Check {
     Check {
         id: "C10",
         level: "model_checking",
-        rule: format!("histories over {} actions: PREPARE(id 1|2, 0..2 params, accepted|rejected), EXECUTE(id 1|2|3(never prepared), bind|reuse), LONG_DATA (with data and empty), CLOSE. (1) the full history tree to depth {} from a fresh connection, no abstraction; (2) BFS over reference-model states (registry map) where every transition is validated by re-running the implementation on witness+action, from two different witnesses per state when two were found. Oracle per history: complete callback log, run_on result and strictly decoded replies equal the registry model (dead ids never reach the shim and end the connection with Err, every CLOSE -> exactly one on_close and no reply bytes, re-prepare resets parameter count/types/long data). (3) long histories: 8..1000 open statements, one long-lived statement next to 6..600 prepare/execute/close cycles; statements of 9..300 parameters closed and re-prepared under the same or another id; COM_STMT_CLOSE packets with 1..29 trailing bytes; thorough: 120 MB of long data discarded by re-preparing an open id. Non-trivial = history not pruned as a duplicate.", alpha.len(), if quick {5} else {7}),
+        rule: format!("histories over {} actions: PREPARE(id 1|2, 0..2 params, accepted|rejected), EXECUTE(id 1|2|3(never prepared), bind|reuse), LONG_DATA (with data and empty), CLOSE. (1) the full history tree to depth {} from a fresh connection, no abstraction; (2) BFS over reference-model states (registry map) where every transition is validated by re-running the implementation on witness+action, from two different witnesses per state when two were found. Oracle per history: complete callback log, run_on result and strictly decoded replies equal the registry model (dead ids never reach the shim and end the connection with Err, every CLOSE -> exactly one on_close and no reply bytes, re-prepare resets parameter count/types/long data). (3) long histories: 8..1000 open statements, one long-lived statement next to 6..600 prepare/execute/close cycles; statements of 9..300 parameters closed and re-prepared under the same or another id; COM_STMT_CLOSE packets with 1..29 trailing bytes; thorough: 120 MB of long data discarded by re-preparing an open id. Non-trivial = history not pruned as a duplicate.", alpha.len(), if quick {6} else {7}),
         assumptions: vec![
             "an EXECUTE that reuses types when none were ever bound for the (re-)prepared statement is treated as connection-ending (it cannot be decoded)".into(),
             "BFS merging assumes hidden implementation state is a function of the model state; tested with two witnesses per state and not assumed at all by the tree".into(),
         ],
-        bounds: json!({"tree_depth": if quick {5} else {7}, "bfs_depth": if quick {7} else {14}, "alphabet": alpha.len()}),
+        bounds: json!({"tree_depth": if quick {6} else {7}, "bfs_depth": if quick {7} else {14}, "alphabet": alpha.len()}),
         exhaustive: true,
         caps_hit: vec![],
         families,
